@@ -34,13 +34,13 @@ Definition leaf (s : schema) (cs : customs) (n : string) : ann * string :=
   | KUnknown => (AInvalid, "")
   end.
 
-(* parse_input_field_type(type_, nullable, custom_scalars): the flag goes UNCHANGED through a list
-   and is reset only by a non-null wrapper *)
+(* parse_input_field_type(type_, nullable, custom_scalars): list items start nullable again (fix 1ef155d);
+   only a non-null wrapper clears the flag *)
 Fixpoint parse_input_field_type (s : schema) (cs : customs) (t : gtype) (nullable : bool) : ann * string :=
   match t with
   | TNamed n => let '(a, tn) := leaf s cs n in (opt_if nullable a, tn)
   | TList t' =>
-      let '(slice_, tn) := parse_input_field_type s cs t' nullable in
+      let '(slice_, tn) := parse_input_field_type s cs t' true in
       (opt_if nullable (AList slice_), tn)
   | TNonNull t' => parse_input_field_type s cs t' false
   end.
@@ -51,14 +51,6 @@ Fixpoint image (s : schema) (cs : customs) (t : gtype) (nullable : bool) : ann :
   | TNamed n => opt_if nullable (fst (leaf s cs n))
   | TList t' => opt_if nullable (AList (image s cs t' true))
   | TNonNull t' => image s cs t' false
-  end.
-
-(* finding class F21: a list whose own flag is "non-null" with an item type that is not non-null *)
-Fixpoint g21 (t : gtype) (nullable : bool) : bool :=
-  match t with
-  | TNamed _ => true
-  | TList t' => (nullable || is_nonnull t') && g21 t' nullable
-  | TNonNull t' => g21 t' false
   end.
 
 Definition is_opt (a : ann) : bool := match a with AOpt _ => true | _ => false end.
